@@ -15,7 +15,9 @@ META = {
                   "pipelines with name/source/status) of the state after the last completed operation, or that state with the in-flight "
                   "operation applied. Modelled: tenant/pipeline ids, names, keys, sources as numbers; serde_json encoding of snapshots and of "
                   "the index as abstract values; the store as a key-value map whose single put/delete is atomic (crash = all later writes "
-                  "lost). Tested only: which handlers call persist_if_needed (the differential run goes through the real handlers; a handler "
+                  "lost); a reload is `source := new source` whatever the engine's ReloadReport says. The oracle compares the recovered and "
+                  "the stored source of every pipeline byte for byte (exact match against the harness's source table) with the acknowledged one. "
+                  "Tested only: which handlers call persist_if_needed (the differential run goes through the real handlers; a handler "
                   "that forgets to persist shows up as an oracle failure), usage counters and quotas are not part of the statement.",
     "design_ref": "DESIGN.md §7 C22",
 }
@@ -39,7 +41,8 @@ def cases_for(run, binpath):
 
 def check(run):
     run.rule = ("operation histories of length <= 8 over 2 tenants and 3 pipelines (create/delete tenant, deploy/delete/reload pipeline, "
-                "restart, rejected requests) driven through the REST handlers, with a crash after every possible number of store writes "
+                "restart, rejected requests; reloads with a byte-identical source, a source differing only in comments/blank lines, only in a "
+                "function body / event declaration / constant, and with changed streams) driven through the REST handlers, with a crash after every possible number of store writes "
                 "(0..total) plus the uncrashed run; non-trivial = history with >= 3 acknowledged operations and a crash inside an "
                 "operation; distinct = distinct (history, crash point)")
     run.trusted += ["Coq 8.16.1 kernel + vm_compute",
@@ -53,6 +56,11 @@ def check(run):
     binpath = S.build(run, ["theories/Store/TenantProps.vo"], "C22.v")
     if binpath is None:
         return
+    # the sources the histories use must all load, and 0-4 must reload into each other without any stream change
+    srcs = harness.run_jsonl(binpath, [{"prop": "C22src"}])[0].get("sources", [])
+    bad = [x for x in srcs if not x["loads"] or (x["index"] in S.SAME_STREAMS) != x["reload_from_0_changes_no_stream"]]
+    if len(srcs) != S.N_SOURCES or bad:
+        run.tie_broken("pipeline sources of the C22 histories (harness SOURCES) no longer load / reload as intended", json.dumps(bad or srcs)[:1500])
     cases = cases_for(run, binpath)
     answers = harness.run_jsonl(binpath, [dict(prop="C22", **c) for c in cases])
     impl = [S.impl_str22(a) for a in answers]
@@ -73,6 +81,8 @@ def check(run):
             run.count("in-flight=" + c["ops"][len(steps) - 1][0] + "@%d" % steps[-1]["writes"])
         for o, s in zip(c["ops"], steps):
             run.count("op=%s:%s" % (o[0], "ack" if 200 <= s["status"] < 300 else "rejected"))
+        for kd in S.reload_kinds22(c, a):
+            run.count("reload=" + kd)
         fails = S.oracle22(c, a)
         if fails:
             n_or += 1
